@@ -314,6 +314,26 @@ def run(prog, rep):
     rep.rule('R2', 'delegation encoder/decoder agree on keys, formats and types', floor=8)
     rep.rule('R3', 'pool regrouping agreement, index rebuild, check before write', floor=8)
     rep.rule('R4', 'the decoder rejects mixed label/capacity content and details on a pool reference', floor=4)
+    rep.rule('R5', 'a sliver stores a delegations value only in the slot of its own type (capacity / label)', floor=2)
+    for cls5 in prog.module('fim.slivers.base_sliver').classes.values():
+        for mname5, want5 in (('set_capacity_delegations', 'CAPACITY'), ('set_label_delegations', 'LABEL')):
+            f5 = cls5.methods.get(mname5)
+            if f5 is None:
+                continue
+            par5 = [a.arg for a in f5.args.args if a.arg != 'self']
+            guards5 = [n for n in walk_no_nested(f5) if isinstance(n, ast.Assert) or
+                       (isinstance(n, ast.If) and any(isinstance(x, ast.Raise) for x in ast.walk(n)))]
+            named5 = {x.attr for g in guards5 for x in ast.walk(g.test) if isinstance(x, ast.Attribute) and isinstance(x.value, ast.Name) and
+                      x.value.id == 'DelegationType'}
+            reads_type5 = any(isinstance(x, ast.Attribute) and x.attr in ('type', 'atype') and isinstance(x.value, ast.Name) and par5 and x.value.id == par5[0]
+                              for g in guards5 for x in ast.walk(g.test))
+            ok5 = reads_type5 and named5 == {want5}
+            rep.instance('R5', f'{cls5.name}.{mname5}: guard on the type of the value: {sorted(named5) if reads_type5 else None}')
+            if not ok5:
+                rep.violation('R5', loc(cls5.module, f5), f'{cls5.name}.{mname5}', f'accepts delegations of any type',
+                              f'{mname5} stores whatever Delegations object it is handed; a {"LABEL" if want5 == "CAPACITY" else "CAPACITY"} set put into the '
+                              f'{want5.lower()} slot is written to the model with the other kind of details, and every later read of the element fails '
+                              f'when the property is decoded as {want5} delegations (mixing label and capacity content must be rejected)')
 
     mod = prog.module(DELS)
     deleg = mod.classes.get('Delegation')
